@@ -69,6 +69,13 @@ pub struct Scenario {
     /// the list of solves is run this many times in a row on the same solver (0 and 1: once) - long-lived solvers
     #[serde(default)]
     pub repeat: u32,
+    /// representation of the cancellation value inside its `Box<dyn Any>` (core::box_token)
+    #[serde(default)]
+    pub token_repr: u8,
+    /// run with a `tracing` subscriber that is enabled at every level (the arguments of every tracing macro in the
+    /// subject are evaluated and formatted); a subscriber must not change what the solver does
+    #[serde(default)]
+    pub trace_subscriber: bool,
 }
 
 #[derive(Clone, Debug, PartialEq, Serialize, Deserialize)]
@@ -164,6 +171,8 @@ impl Scenario {
             capture_state: false,
             rewrap_before_render: false,
             repeat: 0,
+            token_repr: 0,
+            trace_subscriber: false,
         }
     }
 }
@@ -501,7 +510,7 @@ fn drive<RT: AsyncRuntime + Clone>(
         let outcome = match res {
             Ok(Ok(v)) => Outcome::Ok(v.into_iter().map(|s| s.0).collect()),
             Ok(Err(UnsolvableOrCancelled::Cancelled(v))) => {
-                Outcome::Cancelled(v.downcast_ref::<Token>().cloned())
+                Outcome::Cancelled(crate::core::unbox_token(v.as_ref()))
             }
             Ok(Err(UnsolvableOrCancelled::Unsolvable(conflict))) => {
                 if sc.rewrap_before_render {
@@ -584,6 +593,7 @@ pub fn make_core(sc: &Scenario) -> Rc<SimCore> {
         trace_out: RefCell::new(Vec::new()),
         batch_p: sc.batch_p,
         spurious_p: sc.spurious_p,
+        token_repr: sc.token_repr,
     })
 }
 
@@ -619,6 +629,7 @@ fn install_observer(stride: u64) {
 
 /// Execute a scenario with one hash salt.
 pub fn execute_with_salt(sc: &Scenario, salt: u64) -> RunRecord {
+    let _all_levels = AllLevelsGuard(crate::probes::set_all_levels(sc.trace_subscriber));
     set_salt(salt);
     if sc.capture_state {
         install_observer(if sc.world.n_solvables() <= 64 { 4 } else { 48 });
@@ -671,6 +682,14 @@ pub fn execute_with_salt(sc: &Scenario, salt: u64) -> RunRecord {
 
 pub fn execute(sc: &Scenario) -> RunRecord {
     execute_with_salt(sc, sc.hash_salt)
+}
+
+/// Restores the previous all-levels setting of the tracing seam when a run ends (also by unwinding).
+struct AllLevelsGuard(bool);
+impl Drop for AllLevelsGuard {
+    fn drop(&mut self) {
+        crate::probes::set_all_levels(self.0);
+    }
 }
 
 /// Digest of everything observable in a run (determinism self-test).
